@@ -164,8 +164,8 @@ func (rr *rulesRunner) nodeText(n ast.Node) []byte {
 
 // printNode prints n the way go/printer does.
 // The printer knows expressions, statements, declarations and specs;
-// the other nodes a pattern can capture (gogrep node lists, fields,
-// field lists) are printed part by part.
+// the other nodes a pattern can capture (gogrep node lists, parts of
+// a range statement, fields, field lists) are printed part by part.
 func (rr *rulesRunner) printNode(buf *bytes.Buffer, n ast.Node) error {
 	switch n := n.(type) {
 	case *gogrep.NodeSlice:
@@ -183,6 +183,31 @@ func (rr *rulesRunner) printNode(buf *bytes.Buffer, n ast.Node) error {
 			}
 		}
 		return nil
+
+	case *gogrep.PartialNode:
+		// A part of a range statement: its header ("for k, v := range x")
+		// or the range clause alone ("range x").
+		rng, ok := n.X.(*ast.RangeStmt)
+		if !ok {
+			return fmt.Errorf("unsupported partial node of %T", n.X)
+		}
+		if n.Pos() == rng.Pos() {
+			buf.WriteString("for ")
+			if rng.Key != nil {
+				if err := printer.Fprint(buf, rr.ctx.Fset, rng.Key); err != nil {
+					return err
+				}
+				if rng.Value != nil {
+					buf.WriteString(", ")
+					if err := printer.Fprint(buf, rr.ctx.Fset, rng.Value); err != nil {
+						return err
+					}
+				}
+				buf.WriteString(" " + rng.Tok.String() + " ")
+			}
+		}
+		buf.WriteString("range ")
+		return printer.Fprint(buf, rr.ctx.Fset, rng.X)
 
 	case *ast.FieldList:
 		if n.Opening.IsValid() {
